@@ -74,7 +74,7 @@ def header_fields(F, S):
             "heightInTiles": ("mem", ("this",), "heightInTiles")}
     got = {}
     for nd in ch.nodes:
-        if is_store(nd):
+        if is_store(nd) and len(ch.kids(nd["id"])) == 2:
             l = ch.term(ch.kids(nd["id"])[0])
             if l[0] == "mem" and l[1][0] == "var":
                 got[l[2]] = ch.term(ch.kids(nd["id"])[1])
@@ -93,11 +93,17 @@ def header_fields(F, S):
         out.append(bad("R-SIB", inst, ch.loc(ch.body), ch.qn, req, "fields not assigned as described: %s" % ", ".join(probs)))
     rb = F.fn(M + "::ReadMapBeginning", nparams=1)
     got = {}
+    multi = set()
     for nd in rb.nodes:
         if is_store(nd):
             l = rb.term(rb.kids(nd["id"])[0])
             if l[0] == "mem" and l[1][0] == "var":
+                if l[2] in got or len(rb.kids(nd["id"])) != 2:
+                    multi.add(l[2])
+                    continue
                 got[l[2]] = rb.term(rb.kids(nd["id"])[1])
+    for m in multi:
+        got[m] = None
     def hdr(f):
         return lambda t: t is not None and t[0] == "mem" and t[2] == f
     probs = []
